@@ -377,3 +377,58 @@ func resizeCodes(v reflect.Value, n int, seen map[uintptr]bool, depth int) int {
 	}
 	return c
 }
+
+// PackBytes re-houses every non-empty byte slice reachable from v in ONE backing array, one behind the other: each field keeps its
+// length and content, but its spare capacity is now the bytes of the fields that follow it (what a caller gets who cuts its names
+// and texts out of one buffer). A writer that appends to such a field writes into its neighbour. Returns the number of slices packed.
+func PackBytes(v any) int {
+	var fields []reflect.Value
+	collectByteFields(reflect.ValueOf(v), &fields, map[uintptr]bool{}, 0)
+	total := 0
+	for _, f := range fields {
+		total += f.Len()
+	}
+	arena := make([]byte, total)
+	off := 0
+	for _, f := range fields {
+		n := f.Len()
+		copy(arena[off:], f.Bytes())
+		f.SetBytes(arena[off : off+n])
+		off += n
+	}
+	return len(fields)
+}
+
+func collectByteFields(v reflect.Value, out *[]reflect.Value, seen map[uintptr]bool, depth int) {
+	if depth > 12 {
+		return
+	}
+	switch v.Kind() {
+	case reflect.Ptr:
+		if v.IsNil() || seen[v.Pointer()] {
+			return
+		}
+		seen[v.Pointer()] = true
+		collectByteFields(v.Elem(), out, seen, depth+1)
+	case reflect.Interface:
+		if !v.IsNil() {
+			collectByteFields(v.Elem(), out, seen, depth+1)
+		}
+	case reflect.Struct:
+		for k := 0; k < v.NumField(); k++ {
+			if v.Type().Field(k).IsExported() {
+				collectByteFields(v.Field(k), out, seen, depth+1)
+			}
+		}
+	case reflect.Slice:
+		if v.Type().Elem().Kind() == reflect.Uint8 {
+			if v.Len() > 0 && v.CanSet() {
+				*out = append(*out, v)
+			}
+			return
+		}
+		for k := 0; k < v.Len(); k++ {
+			collectByteFields(v.Index(k), out, seen, depth+1)
+		}
+	}
+}
